@@ -7,7 +7,7 @@
    IsAllowed in any order at any later point; every mutex-protected section is one step).
    `covers m ip dlo`: the record of ip in m lasts until the deadline dlo (None = for ever).
    `within t dlo`: t is not after the deadline. *)
-From TX Require Import Model.Lockout Proofs.Lockout Proofs.SideC18 Gen.C18.
+From TX Require Import Model.Lockout Proofs.Lockout Proofs.LockoutBudget Proofs.SideC18 Gen.C18.
 Open Scope Z_scope.
 
 (* (1) locked out: once a ban record for ip is in place — temporary until dl, or permanent (dlo = None) —
@@ -56,16 +56,32 @@ Theorem C18_decision_from_counters :
 Proof. exact fail_a_decision. Qed.
 Print Assumptions C18_decision_from_counters.
 
-(* (2) no false refusal — proved at step granularity (any variant): in any step of any thread a ban record
-   for an unbanned ip appears only through BanIP(ip) or through the second half of a RecordFailure(ip) that
-   is pending with a threshold decision; and a RecordFailure is left pending exactly when its counters said so *)
-Theorem C18_no_false_refusal_partial :
+(* (2) no false refusal: if the failures on record for ip plus every failing call on ip that the thread programs
+   can still make (RecordFailure(ip), failing handshakes from ip, including those in flight past the gates) stay
+   below both thresholds, and no program bans ip manually, then ip is never refused as banned — in EVERY state
+   reachable by EVERY schedule (successes and clean-ups may reset the counters, failures of other addresses,
+   bans of other addresses and unbans are unrestricted) *)
+Theorem C18_no_false_refusal :
+  forall C ip (s : sst) sched,
+  bans (fst s) ip = None -> Forall (thr_quiet ip) (snd s) ->
+  0 <= total_of (fails (fst s) ip) ->
+  lenZ (ts_of (fails (fst s) ip)) <= total_of (fails (fst s) ip) ->
+  total_of (fails (fst s) ip) + fold_right Z.add 0 (map (budget ip) (snd s)) < Z.min (maxf C) (perm C) ->
+  is_banned (fst (runs current_variant C s sched)) ip = false.
+Proof. exact no_false_refusal. Qed.
+Print Assumptions C18_no_false_refusal.
+
+(* ... and at step granularity, for any variant and with the window taken into account: in any step of any
+   thread a ban record for an unbanned ip appears only through BanIP(ip) or through the second half of a
+   RecordFailure(ip) pending with a threshold decision; a RecordFailure is left pending exactly when its
+   counters said so (C18_decision_from_counters, C18_window_count_exact) *)
+Theorem C18_ban_created_only_by :
   forall V C l s l' s' ip,
   tstep V C l s = (l', s') -> bans s ip = None -> bans s' ip <> None ->
   (exists rest log dur, l = LProg PIdle (CBan ip dur :: rest) log) \/
   (exists d res rest log, l = LProg (PFailB ip d res) rest log /\ d <> DNone).
 Proof. exact ban_created_only_by. Qed.
-Print Assumptions C18_no_false_refusal_partial.
+Print Assumptions C18_ban_created_only_by.
 
 Theorem C18_pending_ban_only_at_threshold :
   forall V C c s p' s' r ip d res,
@@ -74,15 +90,12 @@ Theorem C18_pending_ban_only_at_threshold :
 Proof. exact pending_ban_only_at_threshold. Qed.
 Print Assumptions C18_pending_ban_only_at_threshold.
 
-(* the schedule-level form (not proved: needs a cross-thread counting invariant): if the failures on record
-   plus every failing call the programs can still make stay below both thresholds, ip is never banned *)
-Definition C18_no_false_refusal_full_statement : Prop :=
-  forall C ip (s : sst) sched,
-  bans (fst s) ip = None -> Forall (thr_quiet ip) (snd s) ->
-  0 <= total_of (fails (fst s) ip) ->
-  lenZ (ts_of (fails (fst s) ip)) <= total_of (fails (fst s) ip) ->
-  total_of (fails (fst s) ip) + fold_right Z.add 0 (map (budget ip) (snd s)) < Z.min (maxf C) (perm C) ->
-  is_banned (fst (runs current_variant C s sched)) ip = false.
+Theorem C18_no_false_refusal_premises_satisfiable :
+  bans init_sh 7%N = None /\ Forall (thr_quiet 7%N) nf_threads /\
+  total_of (fails init_sh 7%N) + fold_right Z.add 0 (map (budget 7%N) nf_threads) < Z.min (maxf wit_cfg) (perm wit_cfg) /\
+  0 < fold_right Z.add 0 (map (budget 7%N) nf_threads).
+Proof. exact no_false_refusal_premises_satisfiable. Qed.
+Print Assumptions C18_no_false_refusal_premises_satisfiable.
 
 (* (3) a blacklisted, not whitelisted address is refused by IsAllowed until the entry's deadline (for ever for
    a permanent entry) under every schedule; excluded: administrative AddToBlacklist / RemoveFromBlacklist /
